@@ -220,6 +220,12 @@ def dotAug (fmt : Fmt) (st : Strides) (coord : List Nat) : Except Err Nat :=
   | [n, h, w, c] => .ok (linOffset fmt st n h w c)
   | _ => .error .rank
 
+/-- `shape = op_shape4D.as_list() if op_shape4D else self.shape`: what a Standard tensor's coordinates are asserted against -/
+def assertShape (t : Tens) (op : Option S4) : List Nat :=
+  match op with
+  | some s => s.toList
+  | none => t.shape
+
 /-- `if not strides: strides = self.get_strides(op_shape4D)` -/
 def stridesOrDefault (t : Tens) (strides : Option Strides) (op : Option S4) : Except Err Strides :=
   match strides with
@@ -239,8 +245,7 @@ def offsetForCoordinate (t : Tens) (coord : List Int) (strides : Option Strides)
   | .ok st =>
     let coord1 := if top then coord.map (· - 1) else coord
     let off0 := if top then st.sE else 0
-    let shapeL := match op with | some s => s.toList | none => t.shape
-    if t.standard && !(inShape coord1 shapeL) then .error .assert else
+    if t.standard && !(inShape coord1 (assertShape t op)) then .error .assert else
     let viaOp := op.isSome && isStandardFm t
     match viewShape t op with
     | .error e => .error e
